@@ -12,7 +12,16 @@ open Umya.Coord
     (4) `BASE_CHAR_CODE = 65`, `POSITIONAL_CONSTANTS = [26⁰, 26¹, 26²]`; (5) the per-character term of
     `alpha_to_index`, panicking beyond three characters and below `'A'`; (6, 7) the `successors` step
     (`index / 26` → `None | Some(n - 1)`) and the digit (`'A' + v % 26`) of `index_to_alpha`; (8) the model's
-    `alphaRev` unfolds by exactly that step and digit.  The iterator chains around the closures are not translated. -/
+    `alphaRev` unfolds by exactly that step and digit.
+    (9) **`alpha_to_index` in full** — `to_uppercase().chars().rev().enumerate().map(term).sum::<u32>()`, the iterator
+    chain lowered to `List.reverse` / enumeration / a panicking map / `List.sum` — is the model's `alphaToIndex` for every
+    text (`to_uppercase` on its documented ASCII domain; `u32` overflow of `+`/`*` not modelled, as everywhere): same
+    value, and a panic exactly for more than three characters or a character below `'A'`.
+    (10) **`index_to_alpha` in full** — the assertion, `successors(Some(index - 1), step)` as an unfold bounded by fuel
+    `index` (measure: the value; `successors_fuel` shows it never runs out), the digit map, `collect`, `rev`,
+    `char::from_u32(..).unwrap()`, `collect` — is the model's `indexToAlpha?` for every index (panic exactly for 0);
+    (11) `string_from_column_index` likewise; (12, 13) hence (1)–(3) hold with the compiled `string_from_column_index` /
+    `alpha_to_index` themselves in place of the model's. -/
 theorem C17_codec_matches_source :
     (∀ col row lc lr, Umya.Gen.coordinate_from_index_with_lock indexToAlpha? col row lc lr = coordinateFromIndexWithLock? col row lc lr) ∧
     (∀ col row, Umya.Gen.coordinate_from_index indexToAlpha? col row = coordinateFromIndexWithLock? col row false false) ∧
@@ -22,13 +31,30 @@ theorem C17_codec_matches_source :
     (∀ v, Umya.Gen.index_to_alpha_step v = some (if v / 26 = 0 then none else some (v / 26 - 1))) ∧
     (∀ v, Char.ofNat (Umya.Gen.index_to_alpha_digit v) = letter v) ∧
     (∀ v, alphaRev v = Char.ofNat (Umya.Gen.index_to_alpha_digit v) ::
-      (match Umya.Gen.index_to_alpha_step v with | some (some n) => alphaRev n | _ => [])) :=
+      (match Umya.Gen.index_to_alpha_step v with | some (some n) => alphaRev n | _ => [])) ∧
+    (∀ s, Umya.Gen.alpha_to_index s = Umya.Gen.resToOpt (alphaToIndex s)) ∧
+    (∀ n, Umya.Gen.index_to_alpha n = indexToAlpha? n) ∧
+    (∀ n, Umya.Gen.string_from_column_index n = indexToAlpha? n) ∧
+    (∀ col row lc lr, Umya.Gen.coordinate_from_index_with_lock Umya.Gen.string_from_column_index col row lc lr =
+      coordinateFromIndexWithLock? col row lc lr) ∧
+    (∀ s, Umya.Gen.column_index_from_string Umya.Gen.alpha_to_index s = Umya.Gen.resToOpt (columnIndexFromString s)) :=
   ⟨Umya.Gen.gen_coordinate_from_index_with_lock, Umya.Gen.gen_coordinate_from_index, Umya.Gen.gen_column_index_from_string,
    Umya.Gen.gen_alpha_constants, Umya.Gen.gen_alpha_to_index_term, Umya.Gen.gen_index_to_alpha_step,
-   Umya.Gen.gen_index_to_alpha_digit, Umya.Gen.gen_alphaRev_step⟩
+   Umya.Gen.gen_index_to_alpha_digit, Umya.Gen.gen_alphaRev_step,
+   Umya.Gen.gen_alpha_to_index, Umya.Gen.gen_index_to_alpha, Umya.Gen.gen_string_from_column_index,
+   fun col row lc lr => by
+     rw [show Umya.Gen.string_from_column_index = indexToAlpha? from funext Umya.Gen.gen_string_from_column_index]
+     exact Umya.Gen.gen_coordinate_from_index_with_lock col row lc lr,
+   fun s => by
+     rw [show Umya.Gen.alpha_to_index = (fun t => Umya.Gen.resToOpt (alphaToIndex t)) from funext Umya.Gen.gen_alpha_to_index]
+     exact Umya.Gen.gen_column_index_from_string s⟩
 
 example : Umya.Gen.alpha_to_index_term 2 'X' = some (676 * 24) := by decide
 example : Umya.Gen.alpha_to_index_term 3 'A' = none := by decide
 example : Umya.Gen.index_to_alpha_step 701 = some (some 25) := by decide
+example : Umya.Gen.alpha_to_index ['x', 'f', 'd'] = some 16384 := by decide
+example : Umya.Gen.alpha_to_index ['A', 'A', 'A', 'A'] = none := by decide
+example : Umya.Gen.index_to_alpha 16384 = some ['X', 'F', 'D'] := by decide
+example : Umya.Gen.index_to_alpha 0 = none := by decide
 
 end Umya.Thm.C17
